@@ -346,10 +346,36 @@ Definition judge_free (ti tobs : tree) : tree :=
   | _, _ => malformed
   end.
 
+(* a scripted source whose Setup fails in a later incarnation; run in a child process because the executor ends the
+   process then.  obs = (net trace exit): only the prefix-closed trace clauses are judged (there is no end of run).
+   Event (12 k) = Setup of incarnation k returned an error. *)
+Definition judge_setupfail (ti tobs : tree) : tree :=
+  match ti, tobs with
+  | T (L 2 :: L tmo :: T cfgs :: T (_ :: phases) :: _), T [netdump; T trace; L exit] =>
+      match mapM (dec_cfg 64) cfgs with
+      | None => malformed
+      | Some cfgs =>
+          (* the first incarnation is set up inside executor.New, before there is anything to observe *)
+          if negb (in_domain_e1 cfgs) || (tmo <? 2)
+             || match phases with T [_; _; L 1] :: _ => true | [] => true | _ => false end then out_of_domain else
+          let nt := flatten cfgs in
+          match mapM (dec_tev nt) (filter (fun t => match t with T [L 12; _] => false | _ => true end) trace) with
+          | Some tr =>
+              let p := rev tr in
+              verdict (diff_if (tree_eqb (enc_net nt) netdump) 1) (map enc_pc (flat_map also_c16 (trace_ok nt p))) (enc_net nt)
+                      ([26] ++ (if exit =? 1 then [27] else [])
+                       ++ (if existsb (fun e => match e with TEnd _ false => true | _ => false end) p then [24] else []))
+          | None => malformed
+          end
+      end
+  | _, _ => malformed
+  end.
+
 (* case := T [input; obs]; in lockstep mode the driver's input is T [orig; prediction] *)
 Definition judge (t : tree) : tree :=
   match t with
   | T [T [(T (L 1 :: _)) as orig; _pred]; obs] => judge_lock orig obs
   | T [(T (L 0 :: _)) as orig; obs] => judge_free orig obs
+  | T [(T (L 2 :: _)) as orig; obs] => judge_setupfail orig obs
   | _ => malformed
   end.
